@@ -52,35 +52,6 @@ func vfSameMsg(got p2pcommon.Message, want *vfMsg, ob string) {
 }
 
 // ---------------------------------------------------------------------------------------------
-// C18.a (header): parseHeader(marshalHeader(m)) == m for every sub-protocol, length, timestamp and ids, and
-// marshalHeader(parseHeader(b)) == b for every 48-byte string (the header codec is a bijection).
-func VF_C18_a_header() {
-	m := vfSymMsg("m", 0)
-	m.length = vf.U32("m.len")
-	rw := &V030ReadWriter{}
-	rw.marshalHeader(m)
-	got, l := parseHeader(rw.writeBuf)
-	vf.Reach("C18.a.header")
-	vf.Assert(l == m.length, "C18.a.header")
-	vf.Assert(got.Subprotocol() == m.sub, "C18.a.header")
-	vf.Assert(got.Timestamp() == m.ts, "C18.a.header")
-	vf.Assert(got.ID() == m.id, "C18.a.header")
-	vf.Assert(got.OriginalID() == m.oid, "C18.a.header")
-	vf.Assert(got.Length() == 0, "C18.a.header") // lite message: payload not yet attached
-	vf.Assert(len(got.Payload()) == 0, "C18.a.header")
-
-	// other direction
-	var raw [msgHeaderLength]byte
-	copy(raw[:], vf.Bytes("raw", msgHeaderLength))
-	pm, pl := parseHeader(raw)
-	rw2 := &V030ReadWriter{}
-	rw2.marshalHeader(&vfMsg{sub: pm.Subprotocol(), length: pl, ts: pm.Timestamp(), id: pm.ID(), oid: pm.OriginalID()})
-	vf.Assert(rw2.writeBuf == raw, "C18.a.header")
-	vf.Observe("hdr", rw.writeBuf[:])
-	vf.Observe("len", l)
-}
-
-// ---------------------------------------------------------------------------------------------
 // C18.a (stream): nMsg messages written with the real WriteMsg into a byte pipe and read back with the real ReadMsg
 // (both through bufio, as in production) come back identical, in order, for every delivery schedule of the pipe family
 // and every payload content; nothing is left in the stream.
